@@ -16,36 +16,54 @@ from mc.checks.c09 import rd_its
 
 TIER = ["quick"]
 SEED = [0]
+MAX_MATCHES = 64
 
 
 # ----------------------------------------------------------------------------- corpus pairs
 def mode_kwargs(rid: str) -> dict:
     """explicit-H corpus (graph.pkl): defaults; implicit-H corpus (ecoli): implicit_temp"""
-    return {} if rid.startswith("graph") else dict(explicit_h=False, implicit_temp=True)
+    return {} if rid.startswith(("graph", "cur")) else dict(explicit_h=False, implicit_temp=True)
+
+
+_USABLE = []
 
 
 def usable_reactions() -> List[Tuple[str, str]]:
+    """corpus reactions satisfying the precondition + the curated reactions (corpus style: the hydrogens that move are explicit)"""
+    if _USABLE:
+        return _USABLE
+    from mc.curated import CURATED, minimal_explicit
+
     out = []
     for rid, s in er.corpus_reactions():
         if er.is_balanced(s) and er.fully_mapped_bijective(s) and h_consistent(s):
             out.append((rid, s))
+    for name, s in CURATED.items():
+        out.append((f"cur#{name}", minimal_explicit(s)))
+    _USABLE.extend(out)
     return out
 
 
+def curated_all_explicit() -> List[Tuple[str, str]]:
+    """the curated reactions with *every* hydrogen of a centre atom explicit (also the ones that stay)"""
+    from mc.curated import CURATED
+
+    return [(f"curfull#{name}", s) for name, s in CURATED.items()]
+
+
 def h_consistent(rsmi: str) -> bool:
-    """either no explicit H atom occurs, or every H attached to a centre atom (on either side) is explicit and mapped"""
+    """either no explicit H atom occurs, or every hydrogen that changes its bonding is explicit and mapped
+    (then no heavy atom changes its implicit hydrogen count)"""
     g = rd_its(rsmi)
     if g is None:
         return False
     hs = [v for v, d in g.nodes(data=True) if (d["lab"][0] or d["lab"][1])[0] == "H"]
     if not hs:
         return True
-    cm = set(change_graph_from_rd(g, fold=False).nodes)
-    for v in cm:
-        for side in (0, 1):
-            lab = g.nodes[v]["lab"][side]
-            if lab and lab[0] != "H" and lab[2] > 0:  # implicit H left on a centre atom although explicit H are in use
-                return False
+    for v, d in g.nodes(data=True):
+        l0, l1 = d["lab"]
+        if l0 and l1 and l0[0] != "H" and l0[2] != l1[2]:
+            return False
     return True
 
 
@@ -149,7 +167,7 @@ def formula_balanced(rsmi: str) -> Optional[bool]:
 
 
 # ----------------------------------------------------------------------------- C03 judgement of one application
-def judge_outputs(sr, substrate_canon: str, invert: bool, tpl_change: Optional[nx.Graph], ctx: str, fails: List[Fail], key: str, rule_balanced: bool = True):
+def judge_outputs(sr, substrate_canon: str, invert: bool, tpl_change: Optional[nx.Graph], ctx: str, fails: List[Fail], key: str, rule_balanced: bool = True, tpl_change_h: Optional[nx.Graph] = None):
     outs = sr.smarts_list
     n_bad = 0
     for o in outs:
@@ -164,6 +182,12 @@ def judge_outputs(sr, substrate_canon: str, invert: bool, tpl_change: Optional[n
     if tpl_change is not None:
         for its in sr.its_list:
             cg = change_graph_from_rd(its_to_rdlike(its))
+            if tpl_change_h is not None:
+                cgh = change_graph_from_rd(its_to_rdlike(its), fold=False)
+                if not same_change(tpl_change_h, cgh):
+                    fails.append(Fail("hydrogen_routes_differ_from_template", f"{ctx}: changed bonds incl. hydrogens {sorted((u, v, d['d']) for u, v, d in cgh.edges(data=True))} labels {dict(cgh.nodes(data='lab'))}",
+                                      f"isomorphic to the template's {sorted((u, v, d['d']) for u, v, d in tpl_change_h.edges(data=True))} {dict(tpl_change_h.nodes(data='lab'))}", key_extra=key))
+                    return
             if not same_change(tpl_change, cg):
                 fails.append(Fail("change_differs_from_template", f"{ctx}: changed bonds {sorted((u, v, d['d']) for u, v, d in cg.edges(data=True))} labels {dict(cg.nodes(data='lab'))}",
                                   f"isomorphic to the template's {sorted((u, v, d['d']) for u, v, d in tpl_change.edges(data=True))} {dict(tpl_change.nodes(data='lab'))}", key_extra=key))
@@ -192,14 +216,20 @@ def check_c03_c04(case):
     g = rd_its(s)
     ch_f = change_graph_from_rd(g)
     ch_b = change_graph_from_rd(g, negate=True)
+    explicit_mode = not mode_kwargs(rid)
+    chh = {False: change_graph_from_rd(g, fold=False), True: change_graph_from_rd(g, fold=False, negate=True)} if explicit_mode else {False: None, True: None}
     centre_ok = centre_carries_all_changes(s)
     regen = 0
+    skipped_big = 0
     for kind, tpl in tpls.items():
         for invert in (False, True):
-            for strat in ("all", "comp", "bt") if (TIER[0] != "quick" or kind == "centre") else ("bt",):
+            for strat in (("all", "comp", "bt") if TIER[0] != "quick" else (("all", "bt") if kind == "centre" else ("bt",))):
                 sr = apply(pc if invert else rc, tpl, rid, invert, strat)
                 key = f"{kind},{'bwd' if invert else 'fwd'},{strat}"
-                outs = judge_outputs(sr, pc if invert else rc, invert, ch_b if invert else ch_f, key, fails, key, rule_balanced=(kind == "full" or centre_ok))
+                if len(sr.mappings) > MAX_MATCHES:
+                    skipped_big += 1  # gluing > MAX_MATCHES matches of a full-ITS template costs minutes; counted, not judged
+                    continue
+                outs = judge_outputs(sr, pc if invert else rc, invert, ch_b if invert else ch_f, key, fails, key, rule_balanced=(kind == "full" or centre_ok), tpl_change_h=chh[invert])
                 n += 1
                 if outs is None:
                     continue
@@ -212,9 +242,28 @@ def check_c03_c04(case):
                 if want in result_set(outs):
                     regen += 1
                 else:
-                    kc = D8_CLASS if (kind == "centre" and multi_component(s, invert)) else ""
+                    kc = ""
                     fails.append(Fail("C04:not_regenerated", f"{key}: {len(outs)} outputs, none equals the reaction", want, key_extra=key, key_class=kc))
-    return Outcome(nontrivial=regen > 0, outcome=f"regen{min(regen, 9)}", fails=fails, transitions=n)
+    # the same judgement on other writings of the substrate (atom order decides node ids, match order, hydrogen routing)
+    if not fails:
+        for invert in (False, True):
+            sub = pc if invert else rc
+            m = Chem.MolFromSmiles(sub)
+            na = m.GetNumAtoms()
+            roots = range(na) if TIER[0] != "quick" else sorted({na // 4, na // 2, (3 * na) // 4, na - 1})
+            for r in roots:
+                w = Chem.MolToSmiles(m, rootedAtAtom=r, canonical=False)
+                sr = apply(w, tpls["centre"], rid, invert, "all")
+                if len(sr.mappings) > MAX_MATCHES:
+                    continue
+                key = f"centre,{'bwd' if invert else 'fwd'},all,rewritten"
+                judge_outputs(sr, sub, invert, ch_b if invert else ch_f, f"{key} {w}", fails, key, rule_balanced=centre_ok, tpl_change_h=chh[invert])
+                n += 1
+                if fails:
+                    break
+            if fails:
+                break
+    return Outcome(nontrivial=regen > 0, outcome=f"regen{min(regen, 9)}" + ("+skipped_big" if skipped_big else ""), fails=fails, transitions=n)
 
 
 def check_c04_variants(case):
@@ -244,13 +293,14 @@ def check_c04_variants(case):
             for invert in (False, True):
                 sr = apply(subs["bwd" if invert else "fwd"], tpl, rid, invert, "bt")
                 n += 1
+                if len(sr.mappings) > MAX_MATCHES:
+                    continue
                 if want in result_set(sr.smarts_list):
                     regen += 1
                 else:
-                    kc = D8_CLASS if (kind == "centre" and multi_component(s, invert)) else ""
+                    kc = ""
                     fails.append(Fail("not_regenerated_variant", f"{tag} {kind} {'bwd' if invert else 'fwd'}: {len(sr.smarts_list)} outputs, none equals the reaction", want, key_extra=f"{kind},{'bwd' if invert else 'fwd'}", key_class=kc))
-                    if not kc:
-                        return Outcome(nontrivial=True, outcome="var", fails=fails, transitions=n)
+                    continue
     return Outcome(nontrivial=regen > 0, outcome="var", fails=fails, transitions=n)
 
 
@@ -271,7 +321,7 @@ def split_fails(out: Outcome, prop: str) -> Outcome:
 def gen_foreign(tier, seed):
     """every template (centre) applied to the substrates of other reactions"""
     U = usable_reactions()
-    k = 4 if tier == "quick" else 25
+    k = 2 if tier == "quick" else 20
     for i, (rid, s) in enumerate(U):
         # templates only within the same corpus/H-mode
         same = [(r2, s2) for r2, s2 in U if r2.split("#")[0] == rid.split("#")[0] and r2 != rid]
@@ -358,7 +408,7 @@ def check_c05(case):
             n += 1
         ref = sets[tvars[0][0]]
         nontriv = nontriv or len(ref) > 1
-        kc = D8_CLASS if multi_component(s, invert) else ""
+        kc = ""
         for tag, R in sets.items():
             if R != ref:
                 fails.append(Fail("template_numbering_changes_results", f"{'bwd' if invert else 'fwd'} {tag}: {len(R)} results vs {len(ref)}; only here {sorted(R - ref)[:1]} only there {sorted(ref - R)[:1]}",
@@ -377,6 +427,15 @@ def check_c05(case):
             n += 1
             if R != ref:
                 fails.append(Fail("substrate_rewriting_changes_results", f"{'bwd' if invert else 'fwd'} {w}: {len(R)} results vs {len(ref)}", "same set of distinct reactions", key_extra=f"{'bwd' if invert else 'fwd'}", key_class=kc))
+                break
+        # substrate handed over as a graph under other node numberings
+        for name, h in relabelled_graphs(sub):
+            if TIER[0] == "quick" and name not in ("shift1", "odd"):
+                continue
+            R = result_set(apply(h, tpl0, rid, invert, "all").smarts_list)
+            n += 1
+            if R != ref:
+                fails.append(Fail("graph_numbering_changes_results", f"{'bwd' if invert else 'fwd'} substrate graph numbered '{name}': {len(R)} results vs {len(ref)}", "same set of distinct reactions", key_extra=f"{'bwd' if invert else 'fwd'}"))
                 break
         # repetition on the same reactor object and on a fresh one sharing the template graph object
         sr = apply(sub, tpl0, rid, invert, "all")
@@ -440,7 +499,7 @@ def check_pruning(case):
                 n += 2
                 nontriv = nontriv or kept < raw
                 if R != R0:
-                    kc = D8_CLASS if multi_component(s, invert) else ""
+                    kc = ""
                     fails.append(Fail("pruning_changes_results", f"{kind} {'bwd' if invert else 'fwd'} automorphism={auto}: {len(R)} distinct reactions with pruning ({kept}/{raw} matches kept), {len(R0)} without",
                                       "same set of distinct reactions", key_extra=f"{kind},{'bwd' if invert else 'fwd'},{auto}", key_class=kc))
     return Outcome(nontrivial=nontriv, outcome="pruned" if nontriv else "nothing_pruned", fails=fails, transitions=n)
@@ -484,6 +543,77 @@ def check_synthetic(case):
     return Outcome(nontrivial=True, outcome="syn", fails=fails, transitions=n)
 
 
+# ----------------------------------------------------------------------------- wildcard rules and graph substrates
+WILDCARD_RULES = [
+    "[CH3:1][CH2:2][C:3](=[O:4])[O:5][CH3:6].[OH:7][*:8]>>[CH3:1][CH2:2][C:3](=[O:4])[O:7][*:8].[OH:5][CH3:6]",
+    "[CH3:1][C:2](=[O:3])[Cl:4].[NH2:6][*:5]>>[CH3:1][C:2](=[O:3])[NH:6][*:5].[ClH:4]",
+    "[*:1][CH:2]=[O:3].[NH2:4][CH3:5]>>[*:1][CH:2]=[N:4][CH3:5].[OH2:3]",
+    "[*:1][C:2](=[O:3])[OH:4].[OH:5][*:6]>>[*:1][C:2](=[O:3])[O:5][*:6].[OH2:4]",
+]
+WILDCARD_SUBS = ["CCC(=O)OC.O", "CCC(=O)OC.CO", "CCC(=O)OC.CCO", "CC(=O)Cl.N", "CC(=O)Cl.CN", "C=O.CN", "CC=O.CN", "c1ccccc1C=O.CN", "OC=O.O", "CC(=O)O.CO", "CC(=O)O.OCC", "OC(=O)CC(=O)O.CO"]
+
+
+def relabelled_graphs(sub: str):
+    """the substrate as a graph under several node numberings: shifted (contains N+1), gapped, odd, reversed"""
+    from synkit.IO.chem_converter import smiles_to_graph
+
+    g = smiles_to_graph(sub, drop_non_aam=False, use_index_as_atom_map=False)
+    nodes = sorted(g.nodes)
+    n = len(nodes)
+    schemes = {
+        "shift1": {v: v + 1 for v in nodes},
+        "gap": {v: (v if i < n // 2 else v + 1) for i, v in enumerate(nodes)},
+        "odd": {v: 2 * v + 3 for v in nodes},
+        "reversed": {v: nodes[n - 1 - i] for i, v in enumerate(nodes)},
+        "zero_based": {v: i for i, v in enumerate(nodes)},
+    }
+    for name, m in schemes.items():
+        h = nx.Graph()
+        for v in sorted(nodes, key=lambda x: m[x]):
+            h.add_node(m[v], **dict(g.nodes[v]))
+        for u, v, d in g.edges(data=True):
+            h.add_edge(m[u], m[v], **dict(d))
+        yield name, h
+
+
+def gen_wildcard(tier, seed):
+    for r in WILDCARD_RULES:
+        for sub in WILDCARD_SUBS:
+            yield [r, sub]
+
+
+def check_wildcard(case):
+    from synkit.Synthesis.Reactor.syn_reactor import SynReactor
+
+    rule, sub = case
+    fails = []
+    n = 0
+    kw = dict(explicit_h=False, implicit_temp=True)
+    subc = er.canon_side(sub)
+    nout = 0
+    for invert in (False,):
+        for strat in ("all", "bt"):
+            sr = SynReactor(sub, rule, strategy=strat, invert=invert, **kw)
+            outs = sr.smarts_list
+            n += 1
+            nout += len(outs)
+            for o in outs:
+                r, p = er.split(o)
+                if er.canon_side(r) != subc:
+                    fails.append(Fail("substrate_not_preserved", f"{strat}: {er.canon_side(r)}", subc, key_extra=strat))
+                    break
+            ref = result_set(outs)
+            for name, h in relabelled_graphs(sub):
+                outs2 = SynReactor(h, rule, strategy=strat, invert=invert, **kw).smarts_list
+                n += 1
+                bad = [o for o in outs2 if er.canon_side(er.split(o)[0]) != subc]
+                if bad:
+                    fails.append(Fail("substrate_not_preserved", f"{strat}, substrate given as graph numbered '{name}': {er.canon_side(er.split(bad[0])[0])}", subc, key_extra=f"{strat},{name}"))
+                elif result_set(outs2) != ref:
+                    fails.append(Fail("graph_numbering_changes_results", f"{strat}, substrate given as graph numbered '{name}': {sorted(result_set(outs2))}", f"{sorted(ref)}", key_extra=f"{strat},{name}"))
+    return Outcome(nontrivial=nout > 0, outcome=f"outs{min(nout, 9)}", fails=fails, transitions=n)
+
+
 # ----------------------------------------------------------------------------- Sub lists per property
 def setup(tier, seed):
     TIER[0], SEED[0] = tier, seed
@@ -494,6 +624,7 @@ def c03_subs(tier, seed):
     return [
         Sub("own_template", gen_rxn, lambda c: split_fails(check_c03_c04(c), "C03"), key=lambda c: c[0], rule="own-template applications"),
         Sub("foreign_template", gen_foreign, check_foreign, key=lambda c: f"{c[0]}->{c[2]}", rule="foreign-template applications"),
+        Sub("wildcard_rules", gen_wildcard, check_wildcard, key=lambda c: f"{c[0]} @ {c[1]}", rule="4 wildcard rules x 12 substrates (group present / absent), substrate as SMILES and as graph under 5 node numberings"),
     ]
 
 
